@@ -60,7 +60,10 @@ def plan(tier, seed):
     for d in workloads():
         for li in (1, 3):
             for s in range(1 if not big else 3):
-                specs.append({"name": f"model-{d}-L{li}-s{s}", "mode": "model", "driver": d, "li": li, "steps": 10 if not big else 40, "seed": seed, "s": s})
+                # the op-logging file objects write where the position is (like a file opened with "w"); the observers
+                # are told both modes, since they may (and a changed tree did) behave differently per declared mode
+                for fmode in ("a", "w"):
+                    specs.append({"name": f"model-{d}-L{li}-{fmode}-s{s}", "mode": "model", "driver": d, "li": li, "fmode": fmode, "steps": 10 if not big else 40, "seed": seed, "s": s})
     for d in ("Canonical", "GrandCanonical", "ForceBias"):
         for fmode in ("a", "w"):
             specs.append({"name": f"kill-{d}-{fmode}", "mode": "kill", "driver": d, "fmode": fmode, "steps": 6, "kills": 8 if not big else 50, "seed": seed})
@@ -303,13 +306,13 @@ def run_model(spec, rec):
     state = {}
     OPLOG.clear()
     files = {"log": OpFile("log"), "traj": OpFile("traj"), "rst": OpFile("rst")}
-    kw = {"logfile": files["log"], "trajectory": files["traj"], "logging_interval": spec["li"]}
+    kw = {"logfile": files["log"], "trajectory": files["traj"], "logging_interval": spec["li"], "logging_mode": spec.get("fmode", "a")}
     if not w["driver"].endswith("ForceBias"):
         kw["restart_file"] = files["rst"]
     mc, _ = sims.build({**w, "seed": seed}, **kw)
     state["snapshot"] = lambda: {"step": int(mc.step_count), "natoms": len(mc.atoms)}
     install_markers(state)
-    wit0 = {"driver": spec["driver"], "logging_interval": spec["li"], "seed": seed, "steps": spec["steps"]}
+    wit0 = {"driver": spec["driver"], "logging_interval": spec["li"], "declared_mode": spec.get("fmode", "a"), "seed": seed, "steps": spec["steps"]}
     try:
         # split the run to exercise repeated irun entries as well
         mc.run(spec["steps"] // 2)
@@ -399,6 +402,17 @@ def run_kill(spec, rec):
     ref = job("ref", None)
     p = run_child(ref)
     if p.returncode != 0:
+        import re as _re
+
+        from qv import env
+
+        frames = _re.findall(r'File "([^"]+)", line \d+, in (\S+)', p.stderr or "")
+        last = (p.stderr or "").strip().splitlines()[-1:] or [""]
+        if frames and os.path.abspath(frames[-1][0]).startswith(os.path.abspath(env.SRC) + os.sep) and "Error" in last[0]:
+            # an ordinary run whose three output files are given by path dies inside the package: no file is well-formed
+            rec.evaluations += 1
+            rec.viol(f"C16/run-with-files-by-path-raised/{last[0].split(':')[0]}@{os.path.relpath(frames[-1][0], env.SRC)}:{frames[-1][1]}", f"an uninterrupted run writing log, trajectory and restart file by path raised: {last[0]}"[:300], {"driver": spec["driver"], "file_mode": spec["fmode"], "stderr_tail": p.stderr[-600:]})
+            return
         rec.inconclusive.append(f"reference child failed: {p.stderr[-300:]}")
         return
     ref_log, ref_traj = slurp(ref["log"]), slurp(ref["traj"])
